@@ -448,7 +448,9 @@ func (f *frame) hereEnv(st *State) *Env {
 	c := f.c
 	b := f.curBlock
 	return &Env{c: c, vars: f.ghostVars(), cur: st, old: c.entry, pkg: f.fn.Pkg.Pkg, guard: st.reach,
-		lookup: func(name string) (Val, bool) { return f.lookupVarAt(name, b, f.curIdx) }}
+		lookup: func(name string) (Val, bool) {
+			return f.withState(st, func() (Val, bool) { return f.lookupVarAt(name, b, f.curIdx) })
+		}}
 }
 
 // evalModLocs evaluates modifies expressions to location sets.
@@ -522,6 +524,10 @@ func (f *frame) applyContract(fs *FuncSpec, callee *ssa.Function, sig *types.Sig
 		}
 	}
 	for i, r := range fs.Requires {
+		if r.Name == "assumed" {
+			c.assumed["assumed-precondition of "+name+": "+r.Src] = true
+			continue
+		}
 		c.oblige("requires", fmt.Sprintf("%s.%d", name, i+1), clauseTags(r, c.tags), st.reach, envPre.evalBool(r.Expr), pos, "precondition of "+name+": "+r.Src)
 	}
 	// frame: callee's modifies within ours
